@@ -238,6 +238,33 @@ def roundtrip_after_read(kind: int, via_reader: bool) -> bool:
     return type(r).__name__ == type(o).__name__ and snap(r) == snap(o)
 
 
+def load_into_used(fft_kind: int, target_kind: int) -> bool:
+    """
+    load() into an object that was already used (its dict-valued attributes hold other keys than the file's): the loaded
+    object has exactly the saved content, nothing of the target's earlier state survives
+    pre: 0 <= fft_kind < 3 and 0 <= target_kind < 3
+    post: _
+    """
+    M = fresh_module()
+    cls = getattr(M, NAMES[ENV_C1])
+    o = cls()
+    if not hasattr(o, "fft_settings"):
+        return True
+    o.fft_settings = [None, {"norm": "ortho"}, {"n": 64, "norm": "ortho"}][fft_kind]
+    target = cls()
+    target.fft_settings = [None, {"n": 32768}, {"n": 16, "axis": -1}][target_kind]       # e.g. left behind by an earlier process() call
+    if hasattr(target, "smoothing") and isinstance(target.smoothing, dict):
+        target.smoothing["leftover"] = 1
+    fs = MemFS()
+    M.open = fs.open
+    try:
+        o.save("s.json")
+        target.load("s.json")
+    finally:
+        del M.open
+    return snap(target) == snap(o)
+
+
 def roundtrip_reach(c: int, mi: int, v: float, via_reader: bool) -> bool:
     """
     pre: 0 <= c < 8 and 0 <= mi < 9 and v == v and 0 <= v <= 1
